@@ -83,6 +83,10 @@ def run_property(pid, tier, seed):
     findings = []
     for ctx in ctxs:
         findings.extend(ctx.findings)
+    for ctx in ctxs:
+        if not findings and ctx.extra.get('_separation_breach'):
+            print('ANALYSIS-BROKEN property=%s: %s' % (pid, ctx.extra['_separation_breach']))
+            return 2
     # de-duplicate by rule + site + message
     seen = {}
     for f in findings:
